@@ -1,6 +1,7 @@
 import Ruint.Lemmas.Canon
 import Ruint.Model.Conv
 import Mathlib.Tactic.Zify
+import Ruint.Lemmas.BitsRev
 
 /-! Lemmas for `Model/Conv.lean` (C07). -/
 namespace Ruint.Conv
@@ -233,6 +234,11 @@ theorem tryFromSigned_nonneg (bits w : ℕ) (v : ℤ) (h0 : 0 ≤ v) (h1 : v < 2
   rw [if_neg (by omega), asUnsigned_nonneg w v h0 h1]
 
 /-! ## `Uint` → primitive -/
+
+/-- C06's limb-level `bit_len` (`BITS - leading_zeros`, with the `MASK.leading_zeros()` correction) is the number
+    of significant bits of the value. -/
+theorem bitLen_model (bits : ℕ) (a : List ℕ) (ha : Canon bits a) : Bits.bitLen bits a = bitLen (val a) := by
+  rw [Bits.bitLen_spec bits a ha]; rfl
 
 theorem bitLen_le_iff (v k : ℕ) : bitLen v ≤ k ↔ v < 2 ^ k := by
   unfold bitLen
